@@ -161,8 +161,8 @@ func SymmetricEquality(p *core.Program, r *core.Report, rule string) {
 								if !isIf {
 									return true
 								}
-								if ue, isU := ast.Unparen(ifs.Cond).(*ast.UnaryExpr); isU && ue.Op == token.NOT && len(ifs.Body.List) == 1 {
-									if ret, isRet := ifs.Body.List[0].(*ast.ReturnStmt); isRet && len(ret.Results) == 1 && core.ExprStr(ret.Results[0]) == "false" {
+								if ue, isU := ast.Unparen(ifs.Cond).(*ast.UnaryExpr); isU && ue.Op == token.NOT {
+									if ret := LastReturn(ifs.Body); ret != nil && len(ret.Results) == 1 && core.ExprStr(ret.Results[0]) == "false" {
 										missingIsUnequal = true
 									}
 								}
